@@ -500,6 +500,78 @@ func recvObserve(fr framing, stream []byte, cuts cutter, eofWith bool) (obs stri
 	return strings.Join(items, ",")
 }
 
+// duplexReader performs one pending Send on the channel before every Read but the first.
+type duplexReader struct {
+	inner  io.Reader
+	reads  int
+	before func()
+}
+
+func (d *duplexReader) Read(p []byte) (int, error) {
+	d.reads++
+	if d.reads > 1 {
+		d.before()
+	}
+	return d.inner.Read(p)
+}
+
+// duplexObserve: what Recv yields while Sends on the same channel fall between the reads of the transport, then
+// what those Sends wrote (those not yet issued when the stream ended are issued at the end).
+func duplexObserve(fr framing, stream []byte, cuts cutter, eofWith bool, out [][]byte) (obs string) {
+	rd := &chunkReader{data: stream, cuts: cuts, eofWith: eofWith}
+	w := &capWC{}
+	var items, sent []string
+	defer func() {
+		if p := recover(); p != nil {
+			obs = strings.Join(append(items, "PANIC"), ",")
+		}
+	}()
+	var ch interface {
+		Send([]byte) error
+		Recv() ([]byte, error)
+	}
+	sendOne := func() {
+		if len(out) == 0 {
+			return
+		}
+		r := out[0]
+		out = out[1:]
+		start := len(w.buf)
+		if err := ch.Send(r); err != nil {
+			sent = append(sent, "E"+obsBytes(w.buf[start:]))
+		} else {
+			sent = append(sent, "S"+obsBytes(w.buf[start:]))
+		}
+	}
+	ch = fr.f(&duplexReader{inner: rd, before: sendOne}, w)
+	prev := ""
+	for calls := 0; calls < len(stream)+4; calls++ {
+		rec, err := ch.Recv()
+		var it string
+		switch {
+		case err == nil:
+			it = "r" + obsBytes(rec)
+		case len(rec) > 0:
+			it = "e" + obsBytes(rec) + ":" + errKind(err)
+		default:
+			it = "E:" + errKind(err)
+		}
+		if err != nil && len(rec) == 0 && it == prev {
+			break
+		}
+		items = append(items, it)
+		prev = it
+	}
+	for len(out) > 0 {
+		sendOne()
+	}
+	so := "."
+	if len(sent) > 0 {
+		so = strings.Join(sent, ",")
+	}
+	return strings.Join(items, ",") + "#" + so
+}
+
 type nopWC struct{}
 
 func (nopWC) Write(p []byte) (int, error) { return len(p), nil }
@@ -863,6 +935,15 @@ func frameExec(fields []string) (obs string) {
 			robs = upToKCuts(fr, stream, k)
 		}
 		return sobs + "|" + robs
+	case "DX":
+		// full-duplex use of one channel: while Recv is collecting the inbound records (stream cut as given), the
+		// records of the last field are Sent on the SAME channel, one before each further read of the transport
+		fr := parseFraming(fields[1])
+		cs := parseCuts(fields[2])
+		recsIn := parseRecs(fields[3])
+		recsOut := parseRecs(fields[4])
+		_, stream := sendAll(fr, recsIn)
+		return duplexObserve(fr, stream, cs.mk(), cs.eofWith, recsOut)
 	case "V":
 		fr := parseFraming(fields[1])
 		cs := parseCuts(fields[2])
